@@ -79,6 +79,6 @@ Example C11_panic_inventory_is_the_audited_one :
   Generated.panic_inventory =
   [("src/alias.rs", 3%N); ("src/data.rs", 4%N); ("src/funcs.rs", 1%N); ("src/lang.rs", 3%N);
    ("src/operator.rs", 1%N); ("src/operator/expr.rs", 1%N); ("src/operator/parse.rs", 2%N);
-   ("src/operator/percentile.rs", 1%N); ("src/operator/split.rs", 1%N); ("src/printer.rs", 9%N);
+   ("src/operator/percentile.rs", 1%N); ("src/operator/split.rs", 1%N); ("src/printer.rs", 8%N);
    ("src/typecheck.rs", 1%N)].
 Proof. reflexivity. Qed.
